@@ -219,22 +219,73 @@ inline ctl::Profile make_profile(Rng& r, int which) {
 }
 
 // ---------------------------------------------------------------- round runner
-// runs fn(tid) on n threads released together; returns when all are joined (quiescent point)
-inline void run_round(int n, uint64_t seed, const std::function<void(int)>& fn) {
-    std::atomic<int> arrived{0};
-    std::vector<std::thread> th;
-    th.reserve(n);
-    for (int t = 0; t < n; ++t) {
-        th.emplace_back([&, t] {
-            alloc::set_role(alloc::ROLE_WORKER);
-            ctl::thread_begin(t, seed * 131 + t);
-            arrived.fetch_add(1);
-            while (arrived.load(std::memory_order_acquire) < n) { _mm_pause(); }
-            fn(t);
-            ctl::thread_end();
-        });
+// runs fn(tid) on n threads released together; returns when all have finished (quiescent point).
+// The threads are persistent (a pool that grows on demand): a round costs a few microseconds of
+// synchronisation instead of n thread creations, so many more rounds fit into the same budget.
+class RoundPool {
+public:
+    ~RoundPool() {
+        quit_.store(true);
+        gen_.fetch_add(1);
+        for (auto& t : threads_) { t.join(); }
     }
-    for (auto& t : th) { t.join(); }
+    void run(int n, uint64_t seed, const std::function<void(int)>& fn) {
+        while (static_cast<int>(threads_.size()) < n) {
+            int id = static_cast<int>(threads_.size());
+            threads_.emplace_back([this, id] { worker(id); });
+        }
+        fn_ = &fn;
+        seed_ = seed;
+        n_active_.store(n);
+        arrived_.store(0);
+        done_.store(0);
+        gen_.fetch_add(1, std::memory_order_release);
+        uint64_t spins = 0;
+        while (done_.load(std::memory_order_acquire) < n) {
+            if (++spins < 4000) {
+                _mm_pause();
+            } else {
+                std::this_thread::sleep_for(std::chrono::microseconds(20));
+            }
+        }
+    }
+
+private:
+    void worker(int id) {
+        alloc::set_role(alloc::ROLE_WORKER);
+        uint64_t seen = 0;
+        for (;;) {
+            uint64_t spins = 0;
+            while (gen_.load(std::memory_order_acquire) == seen) {
+                if (++spins < 20000) {
+                    _mm_pause();
+                } else {
+                    std::this_thread::sleep_for(std::chrono::microseconds(50));
+                }
+            }
+            seen = gen_.load(std::memory_order_acquire);
+            if (quit_.load()) { return; }
+            int n = n_active_.load();
+            if (id >= n) { continue; }
+            ctl::thread_begin(id, seed_ * 131 + id);
+            arrived_.fetch_add(1);
+            while (arrived_.load(std::memory_order_acquire) < n) { _mm_pause(); }
+            (*fn_)(id);
+            ctl::thread_end();
+            done_.fetch_add(1, std::memory_order_release);
+        }
+    }
+    std::vector<std::thread> threads_;
+    std::atomic<uint64_t> gen_{0};
+    std::atomic<int> n_active_{0}, arrived_{0}, done_{0};
+    std::atomic<bool> quit_{false};
+    const std::function<void(int)>* fn_{nullptr};
+    uint64_t seed_{0};
+};
+
+inline void run_round(int n, uint64_t seed, const std::function<void(int)>& fn) {
+    static RoundPool pool;
+    pool.run(n, seed, fn);
 }
 
 } // namespace vf
